@@ -9,7 +9,9 @@ bad = 0
 cp = "/opt/veriftools/tla/tla2tools.jar:/opt/veriftools/tla/CommunityModules-deps.jar"
 for f in sorted(os.listdir(os.path.join(V, "spec"))):
     if f.endswith(".tla"):
-        p = subprocess.run(["java", "-cp", cp, "tla2sany.SANY", f], cwd=os.path.join(V, "spec"),
+        # (the proof modules extend the proof system's library modules)
+        lib = ["-DTLA-Library=/opt/veriftools/tlapm/lib/tlapm/stdlib"] if f.endswith("Proof.tla") else []
+        p = subprocess.run(["java", *lib, "-cp", cp, "tla2sany.SANY", f], cwd=os.path.join(V, "spec"),
                            stdout=subprocess.PIPE, stderr=subprocess.STDOUT, text=True)
         ok = p.returncode == 0 and "rror" not in p.stdout.replace("Semantic errors:", "")
         print(("ok   " if ok else "FAIL ") + f)
